@@ -36,6 +36,7 @@ var verifDetermProgs = []verifDetermProg{
 	{"function-values-in-modules", "import show from m1;\nimport show2 from m2;\nfn named(a: int) -> int { a }\nfn main() {\n  let f = fn() -> int { 1 };\n  println(f, named);\n  show();\n  show2();\n  println(f());\n}\n",
 		map[string]string{"m1": "pub fn show() {\n  let g = fn() -> int { 2 };\n  println(g, g());\n}\n", "m2": "pub fn show2() {\n  let h = fn() -> int { 3 };\n  let k = fn() -> int { 4 };\n  println(h, k, h() + k());\n}\n"}},
 	{"cast-error-message", "fn main() {\n  let o = new { inner: new { a: 1, b: 2, c: 3 } } as { ? };\n  try {\n    let t = o.get(\"inner\").unwrap() as { a: str, b: str, c: str };\n    println(t);\n  } catch e {\n    println(e.message);\n  }\n  try {\n    let u = o.get(\"inner\").unwrap() as { a: int, b: bool, c: float, d: int };\n    println(u);\n  } catch e {\n    println(e.message);\n  }\n}\n", nil},
+	{"library-made-empty-options-are-written", "fn main() {\n  let slots = \"[null, 2]\".parse_json() as [?int];\n  println(slots[0], slots[0].is_none());\n  slots[0] = ?5;\n  println(slots[0], slots[1]);\n  let rec = \"{\\\"room\\\": null}\".parse_json() as { room: ?str };\n  println(rec.room);\n  rec.room = ?\"kitchen\";\n  println(rec.room);\n  let o = new { ? };\n  let m: ?int = o->missing;\n  println(m);\n  let l: [int] = [];\n  println(l.pop(), l.last());\n  let n: ?int = none;\n  println(n);\n}\n", nil},
 	{"list-of-objects", "fn main() {\n  let l = [new { k: 1, v: \"a\" }, new { k: 2, v: \"b\" }];\n  for o in l { println(o.k, o.v); }\n  println(l);\n}\n", nil},
 }
 
@@ -88,6 +89,7 @@ func VerifHarness_Determinism() {
 		// the programs are meant to be accepted: a rejected one would make this check vacuous
 		errors.VerifAssert("determinism-corpus-program-is-accepted", !verifHasSuffix(first, "## rejected"))
 	}
+	errors.VerifAssert("an-earlier-run-in-the-same-process-does-not-matter", first == second)
 	errors.VerifStable("same-diagnostics-output-and-outcome-on-every-run", first)
 	errors.VerifStable("second-run-in-the-same-process", second)
 }
